@@ -280,6 +280,33 @@ def _has_scalar_nan(dt, v) -> bool:
     return any(_has_scalar_nan(f.data_type, v[f.name]) for f in inner.fields_except_padding)
 
 
+def _same_up_to_nan_payload(t, a: bytes, b: bytes) -> bool:
+    """two serialized representations that decode (reference decoder) to the same value once every NaN is canonical: a
+    built-in float carries NaN-ness, not the payload/signalling bit of a float16/float32 NaN (false alarm of the first
+    thorough run: random NaN patterns in float arrays)"""
+    if len(a) != len(b):
+        return False
+    x = pp_ref.deserialize_ref(t, a, len(a))
+    y = pp_ref.deserialize_ref(t, b, len(b))
+    if x[0] != 0 or y[0] != 0 or x[2] != y[2]:
+        return False
+
+    def canon(xs):
+        out = []
+        for q in xs:
+            if isinstance(q, (list, tuple)):
+                k, v = q[0], q[1]
+                if k == "f32":  # float16 values arrive widened to single: a NaN is a NaN
+                    v = 0x7FC00000 if (v & 0x7F800000) == 0x7F800000 and (v & 0x007FFFFF) else v
+                else:
+                    v = 0x7FF8000000000000 if (v & 0x7FF0000000000000) == 0x7FF0000000000000 and (v & 0x000FFFFFFFFFFFFF) else v
+                out.append([k, v])
+            else:
+                out.append(q)
+        return out
+    return canon(pp_ref.flat(t, x[1])) == canon(pp_ref.flat(t, y[1]))
+
+
 def _nan_wire_equal(t, v, got: bytes, want: bytes) -> bool:
     """bytes equal; when a float16/float32 SCALAR holds a NaN, equal up to that NaN's payload/sign (the specification
     fixes NaN-ness only): both byte strings are then decoded by the reference and compared with NaNs canonical"""
@@ -581,6 +608,6 @@ def data_object_checks(types, workdir: pathlib.Path, n_roundtrip: int = 40):
         else:
             if "exc" in r:
                 add(f"native[py]:{tn}#to_builtin-update_from_builtin-round-trip", {"input": {"object": x}, "why": f"raises {r['exc']}: {r['msg']}", "trace": r.get("tb", "")})
-            elif r["a"] != r["b"]:
+            elif r["a"] != r["b"] and not _same_up_to_nan_payload(t, bytes.fromhex(r["a"]), bytes.fromhex(r["b"])):
                 add(f"native[py]:{tn}#to_builtin-update_from_builtin-round-trip", {"input": {"object": x, "builtin": r["builtin"]}, "why": f"serialize(update_from_builtin(T(), to_builtin(o))) = {r['b']}, serialize(o) = {r['a']}"})
     return bad, len(jobs), None
